@@ -24,6 +24,7 @@ func NewMultiEpochHooks(hooks ...EpochHooks) MultiEpochHooks {
 // epochNumber is the number of epoch that is ending.
 func (h MultiEpochHooks) AfterEpochEnd(ctx sdk.Context, epochIdentifier string, epochNumber int64) {
 	for i := range h {
+		verifTrace(ctx, i, h[i], "AfterEpochEnd", epochIdentifier, epochNumber)
 		h[i].AfterEpochEnd(ctx, epochIdentifier, epochNumber)
 	}
 }
@@ -32,6 +33,7 @@ func (h MultiEpochHooks) AfterEpochEnd(ctx sdk.Context, epochIdentifier string, 
 // epochNumber is the number of epoch that is starting.
 func (h MultiEpochHooks) BeforeEpochStart(ctx sdk.Context, epochIdentifier string, epochNumber int64) {
 	for i := range h {
+		verifTrace(ctx, i, h[i], "BeforeEpochStart", epochIdentifier, epochNumber)
 		h[i].BeforeEpochStart(ctx, epochIdentifier, epochNumber)
 	}
 }
